@@ -289,6 +289,40 @@ func c19DBDriven(c *fw.Case) {
 		c.Obs("sessions_over_planted_crash_residue", 1)
 		censuses++
 	}
+	// two short sessions on a real file system with the asynchronous direct-I/O log (the option probes the file system
+	// for O_DIRECT at Open), again with the garbage collector held off
+	if c.Idx%2 == 0 {
+		ddir := filepath.Join(c.DiskDir(), "db-direct-io-wal")
+		_ = os.MkdirAll(ddir, 0755)
+		dopts := opts
+		dopts.Async, dopts.DirectIOWAL = true, true
+		for ds := 0; ds < 2; ds++ {
+			oldGC := debug.SetGCPercent(-1)
+			db, err := simpledb.NewSimpleDB(ddir, dopts.Options()...)
+			if err == nil {
+				err = db.Open()
+			}
+			if err != nil {
+				debug.SetGCPercent(oldGC)
+				c.Violate("resources/open-error", "session with the direct-I/O log: %v", err)
+				return
+			}
+			_ = db.Put("k", "v")
+			_, _ = db.Get("k")
+			err = db.Close()
+			ok := err == nil && afterCloseCensus(c, ddir, "session-with-direct-io-wal", fmt.Sprintf("direct-I/O log session %d [%s]", ds, dopts))
+			debug.SetGCPercent(oldGC)
+			if err != nil {
+				c.Violate("resources/close-error", "%v", err)
+				return
+			}
+			if !ok {
+				return
+			}
+			c.Obs("sessions_with_the_direct_io_log_censused", 1)
+			censuses++
+		}
+	}
 	if err := os.RemoveAll(dir); err != nil {
 		c.Violate("resources/remove-after-close-failed", "%v", err)
 		return
